@@ -14,6 +14,7 @@ import (
 	"net/http"
 	"net/http/httptest"
 	"runtime"
+	"sort"
 	"strconv"
 	"strings"
 	"sync"
@@ -44,6 +45,7 @@ type recorder struct {
 	nextEp     int
 	pendKick   string
 	parks      map[string]chan struct{}
+	parked     []chan struct{} // kick parks in use
 	jitter     *hx.Rand
 	unmapTry   map[int]int // ep -> index of its unmap line
 	conn, disc map[int]int
@@ -69,6 +71,23 @@ func (r *recorder) hook(ev sniproxy.VerifEvent) {
 		}
 		time.Sleep(d)
 		return
+	}
+	if ev.Point == "server.kick" {
+		// hold the first kicker of a chosen name between its look-up and its map write for a while:
+		// a connection that arrives meanwhile must wait for it (or the kick would miss one of the two)
+		r.mu.Lock()
+		c := r.parks["kick:"+ev.Name]
+		if c != nil {
+			delete(r.parks, "kick:"+ev.Name)
+			r.parked = append(r.parked, c)
+		}
+		r.mu.Unlock()
+		if c != nil {
+			select {
+			case <-c:
+			case <-time.After(400 * time.Millisecond):
+			}
+		}
 	}
 	r.mu.Lock()
 	defer r.mu.Unlock()
@@ -187,6 +206,13 @@ func gen(r *hx.Rand, big bool) scenario {
 	if r.Intn(4) == 0 {
 		ls = append(ls, fmt.Sprintf("holdunmap name=%d", r.Intn(2)))
 	}
+	if r.Intn(4) == 0 {
+		ls = append(ls, fmt.Sprintf("holdkick name=%d", r.Intn(2)))
+	}
+	hungAt := -1
+	if r.Intn(5) == 0 {
+		hungAt = r.Intn(2)
+	}
 	k := 2 + r.Intn(5)
 	if big {
 		k = 2 + r.Intn(12)
@@ -195,7 +221,11 @@ func gen(r *hx.Rand, big bool) scenario {
 		if r.Intn(6) == 0 {
 			ls = append(ls, fmt.Sprintf("plainget name=%d", r.Intn(2)))
 		}
-		ls = append(ls, fmt.Sprintf("life name=%d end=%s delay=%d", r.Intn(2), hx.Pick(r, []string{"close", "sever", "leave", "leave"}), r.Intn(3000)))
+		end := hx.Pick(r, []string{"close", "sever", "leave", "leave"})
+		if i == hungAt {
+			end = "hung" // a peer that completes the handshake and then never answers anything
+		}
+		ls = append(ls, fmt.Sprintf("life name=%d end=%s delay=%d", r.Intn(2), end, r.Intn(3000)))
 	}
 	return scenario{ls}
 }
@@ -228,6 +258,7 @@ func run(sc scenario, seed uint64, rep *hx.Report) (lines, expect []string, skip
 		end string
 	}
 	var lives []life
+	var hungs []*websocket.Conn
 	var holdName, kickName string
 	for _, l := range sc.lines {
 		ws := strings.Fields(l)
@@ -236,6 +267,10 @@ func run(sc scenario, seed uint64, rep *hx.Report) (lines, expect []string, skip
 			kickName = "ep" + kvs(ws, "name")
 			rec.mu.Lock()
 			rec.parks["connect:"+kickName] = make(chan struct{})
+			rec.mu.Unlock()
+		case "holdkick":
+			rec.mu.Lock()
+			rec.parks["kick:ep"+kvs(ws, "name")] = make(chan struct{})
 			rec.mu.Unlock()
 		case "holdunmap":
 			holdName = "ep" + kvs(ws, "name")
@@ -252,6 +287,22 @@ func run(sc scenario, seed uint64, rep *hx.Report) (lines, expect []string, skip
 		case "life":
 			d, _ := strconv.Atoi(kvs(ws, "delay"))
 			time.Sleep(time.Duration(d) * time.Microsecond)
+			if kvs(ws, "end") == "hung" {
+				u := "ws" + strings.TrimPrefix(ts.URL, "http") + "/" + kvs(ws, "name")
+				hc, _, err := websocket.DefaultDialer.Dial(u, nil)
+				if err != nil {
+					return nil, nil, "dial hung peer: " + err.Error()
+				}
+				go func() {
+					for {
+						if _, _, err := hc.ReadMessage(); err != nil {
+							return
+						}
+					}
+				}()
+				hungs = append(hungs, hc)
+				continue
+			}
 			td := &trackDialer{}
 			dctx, dcancel := context.WithTimeout(ctx, 15*time.Second)
 			ep, err := sniproxy.Dial(dctx, &sniproxy.StaticRouter{Host: ts.Listener.Addr().String()},
@@ -298,6 +349,10 @@ func run(sc scenario, seed uint64, rep *hx.Report) (lines, expect []string, skip
 		close(c)
 		delete(rec.parks, k)
 	}
+	for _, c := range rec.parked {
+		close(c)
+	}
+	rec.parked = nil
 	rec.mu.Unlock()
 	// quiescent point 1: the lifecycles that were left running; wait until the trace is stable
 	stable := func() int {
@@ -319,9 +374,58 @@ func run(sc scenario, seed uint64, rep *hx.Report) (lines, expect []string, skip
 		return last
 	}
 	stable()
-	for _, nm := range []string{"0", "1"} {
+	// one live endpoint per name: whoever was replaced in the registry has been told to go and has gone
+	// (a peer that does not answer the shutdown request is cut off when the request times out, 3 s)
+	patience := 2 * time.Second
+	if len(hungs) > 0 {
+		patience = 7 * time.Second
+	}
+	liveOf := func() map[string][]int {
 		rec.mu.Lock()
-		ptr := srv.VerifEndpointPtr("ep" + nm)
+		defer rec.mu.Unlock()
+		nameOf := map[int]string{}
+		id := 0
+		for _, l := range rec.lines {
+			if strings.HasPrefix(l, "upgrade name=") {
+				nameOf[id] = strings.TrimPrefix(l, "upgrade name=")
+				id++
+			}
+		}
+		gone := map[int]bool{}
+		for _, l := range rec.lines {
+			var e, ss int
+			if n, _ := fmt.Sscanf(l, "disconnect ep=%d sess=%d", &e, &ss); n == 2 {
+				gone[e] = true
+			}
+		}
+		out := map[string][]int{}
+		for e, nm := range nameOf {
+			if !gone[e] {
+				out[nm] = append(out[nm], e)
+			}
+		}
+		return out
+	}
+	for t0 := time.Now(); ; time.Sleep(20 * time.Millisecond) {
+		bad := ""
+		for nm, es := range liveOf() {
+			if len(es) > 1 {
+				sort.Ints(es)
+				bad = fmt.Sprintf("name ep%s has %d endpoint connections that were accepted and have not ended (%v): one of them was replaced in the registry without being shut down", nm, len(es), es)
+			}
+		}
+		if bad == "" {
+			break
+		}
+		if time.Since(t0) > patience {
+			rep.Fail("two-live-endpoints-for-one-name", bad, sc.lines)
+			break
+		}
+	}
+	stable()
+	for _, nm := range []string{"0", "1"} {
+		ptr := srv.VerifEndpointPtr("ep" + nm) // (registry lock before recorder lock, as in the hooks)
+		rec.mu.Lock()
 		want := "none"
 		if ptr != 0 {
 			want = fmt.Sprintf("ep=%d", rec.epOfPtr[ptr])
@@ -336,12 +440,16 @@ func run(sc scenario, seed uint64, rep *hx.Report) (lines, expect []string, skip
 	for _, l := range lives {
 		l.ep.Close()
 	}
+	for _, hc := range hungs {
+		hc.Close()
+	}
 	ts.CloseClientConnections()
 	stable()
+	endPtr := map[string]uintptr{"0": srv.VerifEndpointPtr("ep0"), "1": srv.VerifEndpointPtr("ep1")}
 	rec.mu.Lock()
 	defer rec.mu.Unlock()
 	for _, nm := range []string{"0", "1"} {
-		ptr := srv.VerifEndpointPtr("ep" + nm)
+		ptr := endPtr[nm]
 		want := "none"
 		if ptr != 0 {
 			want = fmt.Sprintf("ep=%d", rec.epOfPtr[ptr])
@@ -382,6 +490,11 @@ func main() {
 		for _, c := range hx.CorpusOps("C15") {
 			scs = append(scs, scenario{c})
 		}
+		// the two forced situations, always: a third connection arriving while the second is between its
+		// look-up and its map write; a kicked peer that never answers the shutdown request
+		scs = append(scs,
+			scenario{[]string{"holdkick name=0", "life name=0 end=leave delay=0", "life name=0 end=leave delay=0", "life name=0 end=leave delay=2000", "life name=1 end=close delay=0"}},
+			scenario{[]string{"life name=1 end=hung delay=0", "life name=1 end=leave delay=500", "life name=0 end=sever delay=0"}})
 		n := 25
 		if f.Thorough() {
 			n = 400
@@ -409,6 +522,13 @@ func main() {
 			}
 		}
 		rep.Case(strings.Join(sc.lines, ";"), names["0"] > 1 || names["1"] > 1)
+		for _, l := range sc.lines {
+			if ws := strings.Fields(l); ws[0] != "life" {
+				rep.Count("sched:" + ws[0])
+			} else if kvs(ws, "end") == "hung" {
+				rep.Count("sched:hung-peer")
+			}
+		}
 		for _, l := range lines {
 			rep.Count("ev:" + strings.Fields(l)[0])
 		}
